@@ -280,6 +280,11 @@ func (r ValueRange) Includes(v Value) Value {
 		return True
 	}
 	if len(v.Type().TestConformance(r.TypeConstraint())) != 0 {
+		if v.Type().HasDynamicTypes() {
+			// The value's own type isn't fully known yet, so it might
+			// still turn out to conform.
+			return unknownResult
+		}
 		// If the value doesn't conform to the type constraint then it's
 		// definitely not in the range.
 		return False
